@@ -1,6 +1,412 @@
-//! C15 (stub)
+//! C15 (thin) — all routes to the same operation give bit-identical results.
+//!
+//! This property is a *route equality*: both sides of every comparison are crypto-bigint calls on
+//! identical inputs (the exactness of each operation against the oracle belongs to C02..C10).
+//! Values are compared through their word view (BigUint) and, for boxed results, the limb count
+//! (the documented precision).
+
 use super::prelude::*;
+use crypto_bigint::modular::{ConstMontyForm, ConstMontyParams, MontyForm, MontyParams};
+use crypto_bigint::{
+    AddMod, BitOps, Checked, CheckedAdd, CheckedMul, CheckedSub, DivRemLimb, Gcd, InvMod, Inverter, MulMod,
+    PrecomputeInverter, Reciprocal, RemLimb, ShlVartime, ShrVartime, SquareRoot, SubMod, U64, U128, U256, U1024,
+    Wrapping, WrappingAdd, WrappingMul, WrappingShl, WrappingShr, WrappingSub, impl_modulus,
+};
+use std::hint::black_box;
+
+/// `route!(c, A, B; inputs..)`: A and B are `Result<T, String>` from `call`; B must equal A.
+/// A panic of route A is reported as well (inputs are kept inside the documented domains).
+macro_rules! route {
+    ($c:expr, $a:expr, $b:expr; $($name:ident),* $(,)?) => {{
+        let a__ = $a;
+        if a__.is_err() {
+            no_panic!($c, a__; $($name),*);
+        } else if let Ok(e__) = a__ {
+            check!($c, $b, e__; $($name),*);
+        }
+    }};
+}
+
+fn bshape(v: BoxedUint) -> (BigUint, usize) {
+    (xb(&v), v.nlimbs())
+}
+
+fn shifts(c: &mut Ctx, bits: u32) -> Vec<u32> {
+    let mut v = vec![0, 1, 31, 32, 33, 63, 64, 65, bits / 2, bits.saturating_sub(65), bits - 64, bits - 1];
+    v.retain(|s| *s < bits);
+    for _ in 0..4 {
+        v.push(c.below(bits as usize) as u32);
+    }
+    v
+}
+
+// ---------------------------------------------------------------- Uint<N> vs BoxedUint of 64 N bits
+
+macro_rules! fixed_vs_boxed {
+    ($name:ident, $T:ty, $L:expr, $div:expr) => {
+        fn $name(c: &mut Ctx) {
+            const L: usize = $L;
+            let bits = 64 * L as u32;
+            for (a, b) in c.scaled($div, |c| c.inputs2(L, L)) {
+                if c.done() {
+                    return;
+                }
+                let (x, y): ($T, $T) = (bu::<L>(&a), bu::<L>(&b));
+                let (xa, xb_) = (bx(&a, L), bx(&b, L));
+                let f = |v: $T| (ub(&v), L);
+                route!(c, call(|| x.wrapping_add(&y)).map(f), call(|| xa.wrapping_add(&xb_)).map(bshape); a, b);
+                route!(c, call(|| x.wrapping_sub(&y)).map(f), call(|| xa.wrapping_sub(&xb_)).map(bshape); a, b);
+                route!(c, call(|| x.wrapping_mul(&y)).map(f), call(|| xa.wrapping_mul(&xb_)).map(bshape); a, b);
+                route!(c, call(|| x.sqrt()).map(f), call(|| xa.sqrt()).map(bshape); a);
+                route!(c, call(|| x.gcd(&y)).map(f), call(|| Gcd::gcd(&xa, &xb_)).map(bshape); a, b);
+                // ct vs vartime and trait vs inherent of gcd
+                route!(c, call(|| x.gcd(&y)).map(f), call(|| Gcd::gcd_vartime(&x, &y)).map(f); a, b);
+                route!(c, call(|| x.gcd(&y)).map(f), call(|| Gcd::gcd(&x, &y)).map(f); a, b);
+                route!(c, call(|| Gcd::gcd(&xa, &xb_)).map(bshape), call(|| Gcd::gcd_vartime(&xa, &xb_)).map(bshape); a, b);
+                for s in shifts(c, bits) {
+                    route!(c, call(|| x.shl(s)).map(f), call(|| xa.shl(s)).map(bshape); a, s);
+                    route!(c, call(|| x.shr(s)).map(f), call(|| xa.shr(s)).map(bshape); a, s);
+                }
+                for s in [bits, bits + 1, 2 * bits, u32::MAX, bits - 1] {
+                    route!(c, call(|| x.wrapping_shl(s)).map(f), call(|| xa.wrapping_shl(s)).map(bshape); a, s);
+                    route!(c, call(|| x.wrapping_shr(s)).map(f), call(|| xa.wrapping_shr(s)).map(bshape); a, s);
+                }
+                if b.is_zero() {
+                    continue;
+                }
+                let (ny, nxb) = (nzu::<L>(&b), nzx(&b, L));
+                let f2 = |v: ($T, $T)| (ub(&v.0), L, ub(&v.1), L);
+                let b2 = |v: (BoxedUint, BoxedUint)| (xb(&v.0), v.0.nlimbs(), xb(&v.1), v.1.nlimbs());
+                route!(c, call(|| x.div_rem(&ny)).map(f2), call(|| xa.div_rem(&nxb)).map(b2); a, b);
+                // modular inverse: fixed vs boxed, trait vs inherent, precomputed inverter vs one-shot
+                let fo = |v: Option<$T>| v.map(|v| (ub(&v), L));
+                let bo = |v: Option<BoxedUint>| v.map(bshape);
+                route!(c, call(|| copt(x.inv_mod(&y))).map(fo), call(|| opt(xa.inv_mod(&xb_))).map(bo); a, b);
+                route!(c, call(|| copt(x.inv_mod(&y))).map(fo), call(|| opt(InvMod::inv_mod(&x, &y))).map(fo); a, b);
+                route!(c, call(|| opt(xa.inv_mod(&xb_))).map(bo), call(|| opt(InvMod::inv_mod(&xa, &xb_))).map(bo); a, b);
+                if b.bit(0) {
+                    let (oy, oxb) = (oddu::<L>(&b), oddx(&b, L));
+                    route!(c, call(|| copt(x.inv_odd_mod(&oy))).map(fo), call(|| opt(oy.precompute_inverter().invert(&x))).map(fo); a, b);
+                    route!(c, call(|| copt(x.inv_odd_mod(&oy))).map(fo), call(|| opt(oy.precompute_inverter().invert_vartime(&x))).map(fo); a, b);
+                    route!(c, call(|| copt(x.inv_odd_mod(&oy))).map(fo), call(|| opt(xa.inv_odd_mod(&oxb))).map(bo); a, b);
+                    route!(c, call(|| opt(xa.inv_odd_mod(&oxb))).map(bo), call(|| opt(oxb.precompute_inverter().invert(&xa))).map(bo); a, b);
+                }
+                // modular add / sub / mul on residues below the modulus p = b
+                let (r1, r2) = (&a % &b, c.rnd_below(&b));
+                let (u1, u2, v1, v2) = (bu::<L>(&r1), bu::<L>(&r2), bx(&r1, L), bx(&r2, L));
+                route!(c, call(|| u1.add_mod(&u2, &y)).map(f), call(|| v1.add_mod(&v2, &xb_)).map(bshape); r1, r2, b);
+                route!(c, call(|| u1.sub_mod(&u2, &y)).map(f), call(|| v1.sub_mod(&v2, &xb_)).map(bshape); r1, r2, b);
+                route!(c, call(|| u1.add_mod(&u2, &y)).map(f), call(|| AddMod::add_mod(&u1, &u2, &y)).map(f); r1, r2, b);
+                route!(c, call(|| u1.sub_mod(&u2, &y)).map(f), call(|| SubMod::sub_mod(&u1, &u2, &y)).map(f); r1, r2, b);
+                route!(c, call(|| v1.add_mod(&v2, &xb_)).map(bshape), call(|| AddMod::add_mod(&v1, &v2, &xb_)).map(bshape); r1, r2, b);
+                route!(c, call(|| v1.sub_mod(&v2, &xb_)).map(bshape), call(|| SubMod::sub_mod(&v1, &v2, &xb_)).map(bshape); r1, r2, b);
+                if b.bit(0) {
+                    route!(c, call(|| u1.mul_mod(&u2, &ny)).map(f), call(|| v1.mul_mod(&v2, &xb_)).map(bshape); r1, r2, b);
+                    route!(c, call(|| u1.mul_mod(&u2, &ny)).map(f), call(|| u1.mul_mod_vartime(&u2, &ny)).map(f); r1, r2, b);
+                    route!(c, call(|| u1.mul_mod(&u2, &ny)).map(f), call(|| MulMod::mul_mod(&u1, &u2, &y)).map(f); r1, r2, b);
+                    route!(c, call(|| v1.mul_mod(&v2, &xb_)).map(bshape), call(|| MulMod::mul_mod(&v1, &v2, &xb_)).map(bshape); r1, r2, b);
+                }
+            }
+        }
+    };
+}
+
+fixed_vs_boxed!(fixed_vs_boxed_64, U64, 1, 2);
+fixed_vs_boxed!(fixed_vs_boxed_128, U128, 2, 2);
+fixed_vs_boxed!(fixed_vs_boxed_256, U256, 4, 4);
+fixed_vs_boxed!(fixed_vs_boxed_1024, U1024, 16, 32);
+
+// ---------------------------------------------------------------- constant-time vs vartime
+
+fn ct_vs_vartime<const L: usize>(c: &mut Ctx) {
+    let bits = 64 * L as u32;
+    for (a, b) in c.scaled(2, |c| c.inputs2(L, L)) {
+        if c.done() {
+            return;
+        }
+        let (x, y) = (bu::<L>(&a), bu::<L>(&b));
+        let f = |v: Uint<L>| ub(&v);
+        let fo = |v: Option<Uint<L>>| v.map(|v| ub(&v));
+        route!(c, call(|| x.sqrt()).map(f), call(|| x.sqrt_vartime()).map(f); a);
+        route!(c, call(|| x.wrapping_sqrt()).map(f), call(|| x.wrapping_sqrt_vartime()).map(f); a);
+        route!(c, call(|| opt(x.checked_sqrt())).map(fo), call(|| opt(x.checked_sqrt_vartime())).map(fo); a);
+        route!(c, call(|| x.bits()), call(|| x.bits_vartime()); a);
+        route!(c, call(|| x.leading_zeros()), call(|| x.leading_zeros_vartime()); a);
+        route!(c, call(|| x.trailing_zeros()), call(|| x.trailing_zeros_vartime()); a);
+        route!(c, call(|| x.trailing_ones()), call(|| x.trailing_ones_vartime()); a);
+        for s in shifts(c, bits) {
+            route!(c, call(|| x.shl(s)).map(f), call(|| x.shl_vartime(s)).map(f); a, s);
+            route!(c, call(|| x.shr(s)).map(f), call(|| x.shr_vartime(s)).map(f); a, s);
+            route!(c, call(|| ccb(x.bit(s))), call(|| x.bit_vartime(s)); a, s);
+        }
+        for s in [0, 1, bits - 1, bits, bits + 1, u32::MAX] {
+            route!(c, call(|| copt(x.overflowing_shl(s))).map(fo), call(|| copt(x.overflowing_shl_vartime(s))).map(fo); a, s);
+            route!(c, call(|| copt(x.overflowing_shr(s))).map(fo), call(|| copt(x.overflowing_shr_vartime(s))).map(fo); a, s);
+            route!(c, call(|| x.wrapping_shl(s)).map(f), call(|| x.wrapping_shl_vartime(s)).map(f); a, s);
+            route!(c, call(|| x.wrapping_shr(s)).map(f), call(|| x.wrapping_shr_vartime(s)).map(f); a, s);
+        }
+        // k <= BITS only (an inverse mod 2^k with k > BITS does not fit the type)
+        for k in [0, 1, 2, 63, 64, 65, bits / 2, bits - 1, bits, c.below(bits as usize + 1) as u32].into_iter().filter(|k| *k <= bits) {
+            route!(c, call(|| copt(x.inv_mod2k(k))).map(fo), call(|| copt(x.inv_mod2k_vartime(k))).map(fo); a, k);
+        }
+        if b.is_zero() {
+            continue;
+        }
+        let ny = nzu::<L>(&b);
+        let f2 = |v: (Uint<L>, Uint<L>)| (ub(&v.0), ub(&v.1));
+        route!(c, call(|| x.div_rem(&ny)).map(f2), call(|| x.div_rem_vartime(&ny)).map(f2); a, b);
+        route!(c, call(|| x.rem(&ny)).map(f), call(|| x.rem_vartime(&ny)).map(f); a, b);
+        route!(c, call(|| x.wrapping_div(&ny)).map(f), call(|| x.wrapping_div_vartime(&ny)).map(f); a, b);
+        let _ = y;
+    }
+}
+
+fn boxed_ct_vs_vartime(c: &mut Ctx) {
+    for l in [1usize, 2, 3, 4] {
+        let bits = 64 * l as u32;
+        for (a, b) in c.scaled(8, |c| c.inputs2(l, l)) {
+            if c.done() {
+                return;
+            }
+            let x = bx(&a, l);
+            let bo = |v: Option<BoxedUint>| v.map(bshape);
+            route!(c, call(|| x.sqrt()).map(bshape), call(|| x.sqrt_vartime()).map(bshape); a, l);
+            route!(c, call(|| opt(x.checked_sqrt())).map(bo), call(|| opt(x.checked_sqrt_vartime())).map(bo); a, l);
+            route!(c, call(|| x.bits()), call(|| x.bits_vartime()); a, l);
+            route!(c, call(|| x.trailing_zeros()), call(|| x.trailing_zeros_vartime()); a, l);
+            route!(c, call(|| x.trailing_ones()), call(|| x.trailing_ones_vartime()); a, l);
+            for s in shifts(c, bits) {
+                route!(c, call(|| Some(x.shl(s))).map(bo), call(|| x.shl_vartime(s)).map(bo); a, s, l);
+                route!(c, call(|| Some(x.shr(s))).map(bo), call(|| x.shr_vartime(s)).map(bo); a, s, l);
+                route!(c, call(|| bool::from(x.bit(s))), call(|| x.bit_vartime(s)); a, s, l);
+            }
+            for s in [0, bits - 1, bits, bits + 1, u32::MAX] {
+                let ov = |v: (BoxedUint, Choice)| if bool::from(v.1) { None } else { Some(bshape(v.0)) };
+                route!(c, call(|| x.overflowing_shl(s)).map(ov), call(|| opt(ShlVartime::overflowing_shl_vartime(&x, s))).map(bo); a, s, l);
+                route!(c, call(|| x.overflowing_shr(s)).map(ov), call(|| opt(ShrVartime::overflowing_shr_vartime(&x, s))).map(bo); a, s, l);
+                route!(c, call(|| x.wrapping_shl(s)).map(bshape), call(|| x.wrapping_shl_vartime(s)).map(bshape); a, s, l);
+                route!(c, call(|| x.wrapping_shr(s)).map(bshape), call(|| x.wrapping_shr_vartime(s)).map(bshape); a, s, l);
+            }
+            for k in [0, 1, 2, 63, 64, 65, bits / 2, bits - 1, bits].into_iter().filter(|k| *k <= bits) {
+                let iv = |v: (BoxedUint, Choice)| if bool::from(v.1) { Some(bshape(v.0)) } else { None };
+                route!(c, call(|| x.inv_mod2k(k)).map(iv), call(|| x.inv_mod2k_vartime(k)).map(iv); a, k, l);
+                // fixed route for the same width is compared in the Uint cases; here boxed vs fixed for l = 4
+                if l == 4 {
+                    let u = bu::<4>(&a);
+                    route!(c, call(|| copt(u.inv_mod2k(k))).map(|v| v.map(|v| (ub(&v), 4usize))), call(|| x.inv_mod2k(k)).map(iv); a, k, l);
+                }
+            }
+            if b.is_zero() {
+                continue;
+            }
+            let ny = nzx(&b, l);
+            let b2 = |v: (BoxedUint, BoxedUint)| (xb(&v.0), v.0.nlimbs(), xb(&v.1), v.1.nlimbs());
+            route!(c, call(|| x.div_rem(&ny)).map(b2), call(|| x.div_rem_vartime(&ny)).map(b2); a, b, l);
+            route!(c, call(|| x.rem(&ny)).map(bshape), call(|| x.rem_vartime(&ny)).map(bshape); a, b, l);
+            route!(c, call(|| x.wrapping_div(&ny)).map(bshape), call(|| x.wrapping_div_vartime(&ny)).map(bshape); a, b, l);
+        }
+    }
+}
+
+// ---------------------------------------------------------------- traits / operators / wrappers vs inherent
+
+fn forms<const L: usize>(c: &mut Ctx) {
+    let bits = 64 * L as u32;
+    for (a, b) in c.scaled(2, |c| c.inputs2(L, L)) {
+        if c.done() {
+            return;
+        }
+        let (x, y) = (bu::<L>(&a), bu::<L>(&b));
+        let f = |v: Uint<L>| ub(&v);
+        let fo = |v: Option<Uint<L>>| v.map(|v| ub(&v));
+        let (wx, wy) = (Wrapping(x), Wrapping(y));
+        let (cx, cy) = (Checked::new(x), Checked::new(y));
+        // add
+        let base = call(|| x.wrapping_add(&y)).map(f);
+        route!(c, base.clone(), call(|| WrappingAdd::wrapping_add(&x, &y)).map(f); a, b);
+        route!(c, base.clone(), call(|| (wx + wy).0).map(f); a, b);
+        route!(c, base.clone(), call(|| (&wx + &wy).0).map(f); a, b);
+        route!(c, base.clone(), call(|| { let mut t = wx; t += wy; t.0 }).map(f); a, b);
+        route!(c, base.clone(), call(|| x.adc(&y, Limb::ZERO).0).map(f); a, b);
+        let chk = call(|| { let (s, carry) = x.adc(&y, Limb::ZERO); if carry.0 == 0 { Some(s) } else { None } }).map(fo);
+        route!(c, chk.clone(), call(|| opt(CheckedAdd::checked_add(&x, &y))).map(fo); a, b);
+        route!(c, chk.clone(), call(|| opt((cx + cy).0)).map(fo); a, b);
+        route!(c, chk.clone(), call(|| opt((&cx + &cy).0)).map(fo); a, b);
+        route!(c, chk.clone(), call(|| { let mut t = cx; t += cy; opt(t.0) }).map(fo); a, b);
+        if let Ok(Some(s)) = &chk {
+            // operators agree with the inherent form whenever they return
+            let s = s.clone();
+            check!(c, call(|| x + y).map(f), s.clone(); a, b);
+            check!(c, call(|| x + &y).map(f), s.clone(); a, b);
+            check!(c, call(|| { let mut t = x; t += y; t }).map(f), s.clone(); a, b);
+            check!(c, call(|| { let mut t = x; t += &y; t }).map(f), s; a, b);
+        }
+        // sub
+        let base = call(|| x.wrapping_sub(&y)).map(f);
+        route!(c, base.clone(), call(|| WrappingSub::wrapping_sub(&x, &y)).map(f); a, b);
+        route!(c, base.clone(), call(|| (wx - wy).0).map(f); a, b);
+        route!(c, base.clone(), call(|| (&wx - &wy).0).map(f); a, b);
+        route!(c, base.clone(), call(|| { let mut t = wx; t -= wy; t.0 }).map(f); a, b);
+        route!(c, base.clone(), call(|| x.sbb(&y, Limb::ZERO).0).map(f); a, b);
+        let chk = call(|| { let (s, borrow) = x.sbb(&y, Limb::ZERO); if borrow.0 == 0 { Some(s) } else { None } }).map(fo);
+        route!(c, chk.clone(), call(|| opt(CheckedSub::checked_sub(&x, &y))).map(fo); a, b);
+        route!(c, chk.clone(), call(|| opt((cx - cy).0)).map(fo); a, b);
+        route!(c, chk.clone(), call(|| { let mut t = cx; t -= cy; opt(t.0) }).map(fo); a, b);
+        if let Ok(Some(s)) = &chk {
+            let s = s.clone();
+            check!(c, call(|| x - y).map(f), s.clone(); a, b);
+            check!(c, call(|| x - &y).map(f), s.clone(); a, b);
+            check!(c, call(|| { let mut t = x; t -= y; t }).map(f), s.clone(); a, b);
+            check!(c, call(|| { let mut t = x; t -= &y; t }).map(f), s; a, b);
+        }
+        // mul
+        let base = call(|| x.wrapping_mul(&y)).map(f);
+        route!(c, base.clone(), call(|| WrappingMul::wrapping_mul(&x, &y)).map(f); a, b);
+        route!(c, base.clone(), call(|| (wx * wy).0).map(f); a, b);
+        route!(c, base.clone(), call(|| (&wx * &wy).0).map(f); a, b);
+        route!(c, base.clone(), call(|| { let mut t = wx; t *= wy; t.0 }).map(f); a, b);
+        route!(c, base.clone(), call(|| x.split_mul(&y).0).map(f); a, b);
+        let chk = call(|| { let (lo, hi) = x.split_mul(&y); if hi == Uint::<L>::ZERO { Some(lo) } else { None } }).map(fo);
+        route!(c, chk.clone(), call(|| opt(CheckedMul::checked_mul(&x, &y))).map(fo); a, b);
+        route!(c, chk.clone(), call(|| opt((cx * cy).0)).map(fo); a, b);
+        route!(c, chk.clone(), call(|| { let mut t = cx; t *= cy; opt(t.0) }).map(fo); a, b);
+        if let Ok(Some(s)) = &chk {
+            let s = s.clone();
+            check!(c, call(|| x * y).map(f), s.clone(); a, b);
+            check!(c, call(|| &x * &y).map(f), s.clone(); a, b);
+            check!(c, call(|| { let mut t = x; t *= y; t }).map(f), s.clone(); a, b);
+            check!(c, call(|| { let mut t = x; t *= &y; t }).map(f), s; a, b);
+        }
+        // square root, shifts, bit queries
+        route!(c, call(|| x.sqrt()).map(f), call(|| SquareRoot::sqrt(&x)).map(f); a);
+        route!(c, call(|| x.sqrt_vartime()).map(f), call(|| SquareRoot::sqrt_vartime(&x)).map(f); a);
+        route!(c, call(|| x.bits()), call(|| BitOps::bits(&x)); a);
+        route!(c, call(|| x.leading_zeros()), call(|| BitOps::leading_zeros(&x)); a);
+        route!(c, call(|| x.trailing_zeros()), call(|| BitOps::trailing_zeros(&x)); a);
+        for s in shifts(c, bits) {
+            let base = call(|| x.shl(s)).map(f);
+            route!(c, base.clone(), call(|| x << s).map(f); a, s);
+            route!(c, base.clone(), call(|| &x << s as usize).map(f); a, s);
+            route!(c, base.clone(), call(|| { let mut t = x; t <<= s; t }).map(f); a, s);
+            route!(c, base.clone(), call(|| WrappingShl::wrapping_shl(&x, s)).map(f); a, s);
+            route!(c, base.clone(), call(|| (wx << s).0).map(f); a, s);
+            route!(c, base.clone(), call(|| ShlVartime::wrapping_shl_vartime(&x, s)).map(f); a, s);
+            let base = call(|| x.shr(s)).map(f);
+            route!(c, base.clone(), call(|| x >> s).map(f); a, s);
+            route!(c, base.clone(), call(|| &x >> s as usize).map(f); a, s);
+            route!(c, base.clone(), call(|| { let mut t = x; t >>= s; t }).map(f); a, s);
+            route!(c, base.clone(), call(|| WrappingShr::wrapping_shr(&x, s)).map(f); a, s);
+            route!(c, base.clone(), call(|| (wx >> s).0).map(f); a, s);
+            route!(c, base.clone(), call(|| ShrVartime::wrapping_shr_vartime(&x, s)).map(f); a, s);
+        }
+    }
+}
+
+// ---------------------------------------------------------------- precomputed reciprocal vs one-shot
+
+fn reciprocal<const L: usize>(c: &mut Ctx) {
+    for (a, d) in c.scaled(2, |c| c.inputs2(L, 1)) {
+        if c.done() {
+            return;
+        }
+        if d.is_zero() {
+            continue;
+        }
+        let (x, xa, nd) = (bu::<L>(&a), bx(&a, L), nzl(&d));
+        let rc = Reciprocal::new(nd);
+        let f = |v: (Uint<L>, Limb)| (ub(&v.0), L, lb(v.1));
+        let g = |v: (BoxedUint, Limb)| (xb(&v.0), v.0.nlimbs(), lb(v.1));
+        let base = call(|| x.div_rem_limb(nd)).map(f);
+        route!(c, base.clone(), call(|| x.div_rem_limb_with_reciprocal(&rc)).map(f); a, d);
+        route!(c, base.clone(), call(|| DivRemLimb::div_rem_limb(&x, nd)).map(f); a, d);
+        route!(c, base.clone(), call(|| DivRemLimb::div_rem_limb_with_reciprocal(&x, &rc)).map(f); a, d);
+        route!(c, base.clone(), call(|| xa.div_rem_limb(nd)).map(g); a, d);
+        route!(c, base.clone(), call(|| xa.div_rem_limb_with_reciprocal(&rc)).map(g); a, d);
+        route!(c, base.clone(), call(|| (x / nd, x % nd)).map(f); a, d);
+        let base = call(|| x.rem_limb(nd)).map(lb);
+        route!(c, base.clone(), call(|| x.rem_limb_with_reciprocal(&rc)).map(lb); a, d);
+        route!(c, base.clone(), call(|| RemLimb::rem_limb(&x, nd)).map(lb); a, d);
+        route!(c, base.clone(), call(|| xa.rem_limb(nd)).map(lb); a, d);
+        route!(c, base.clone(), call(|| xa.rem_limb_with_reciprocal(&rc)).map(lb); a, d);
+    }
+}
+
+// ---------------------------------------------------------------- const-evaluated vs run time
+
+const CA: U256 = U256::from_be_hex("f1e2d3c4b5a69788796a5b4c3d2e1f00ffffffffffffffff0000000000000001");
+const CB: U256 = U256::from_be_hex("00000000000000018000000000000000ffffffff00000000fedcba9876543211");
+const CM: Odd<U256> = Odd::<U256>::from_be_hex("ffffffff00000001000000000000000000000000ffffffffffffffffffffffff");
+const C_ADD: U256 = CA.wrapping_add(&CB);
+const C_SUB: U256 = CB.wrapping_sub(&CA);
+const C_MUL: U256 = CA.wrapping_mul(&CB);
+const C_SPLIT: (U256, U256) = CA.split_mul(&CB);
+const C_SQUARE: (U256, U256) = CA.square_wide();
+const C_DIVREM: (U256, U256) = CA.div_rem(&NonZero::<U256>::new_unwrap(CB));
+const C_DIVREM_VT: (U256, U256) = CA.div_rem_vartime(&NonZero::<U256>::new_unwrap(CB));
+const C_SHL: U256 = CA.shl(77);
+const C_SHR: U256 = CA.shr_vartime(130);
+const C_SQRT: U256 = CA.sqrt();
+const C_GCD: U256 = CA.gcd(&CB);
+const C_INV2K: U256 = CB.inv_mod2k(200).expect("odd");
+const C_INV: U256 = CA.inv_odd_mod(&CM).expect("invertible");
+const C_ADDMOD: U256 = CB.add_mod(&CB, CM.as_ref());
+const C_MULSPECIAL: U256 = CA.mul_mod_special(&CB, Limb(189));
+const C_BITS: u32 = CB.bits();
+
+impl_modulus!(P256Mod, U256, "ffffffff00000001000000000000000000000000ffffffffffffffffffffffff");
+type CF = ConstMontyForm<P256Mod, { U256::LIMBS }>;
+const C_MONTY_A: CF = CF::new(&CA);
+const C_MONTY_B: CF = CF::new(&CB);
+const C_MONTY_MUL: U256 = C_MONTY_A.mul(&C_MONTY_B).retrieve();
+const C_MONTY_POW: U256 = C_MONTY_A.pow(&CB).retrieve();
+
+fn const_vs_runtime(c: &mut Ctx) {
+    let (a, b, m) = (black_box(CA), black_box(CB), black_box(CM));
+    let i = 0u32;
+    let f = |v: U256| ub(&v);
+    let f2 = |v: (U256, U256)| (ub(&v.0), ub(&v.1));
+    check!(c, call(|| a.wrapping_add(&b)).map(f), ub(&C_ADD); i);
+    check!(c, call(|| b.wrapping_sub(&a)).map(f), ub(&C_SUB); i);
+    check!(c, call(|| a.wrapping_mul(&b)).map(f), ub(&C_MUL); i);
+    check!(c, call(|| a.split_mul(&b)).map(f2), f2(C_SPLIT); i);
+    check!(c, call(|| a.square_wide()).map(f2), f2(C_SQUARE); i);
+    check!(c, call(|| a.div_rem(&NonZero::new(b).unwrap())).map(f2), f2(C_DIVREM); i);
+    check!(c, call(|| a.div_rem_vartime(&NonZero::new(b).unwrap())).map(f2), f2(C_DIVREM_VT); i);
+    check!(c, call(|| a.shl(black_box(77))).map(f), ub(&C_SHL); i);
+    check!(c, call(|| a.shr_vartime(black_box(130))).map(f), ub(&C_SHR); i);
+    check!(c, call(|| a.sqrt()).map(f), ub(&C_SQRT); i);
+    check!(c, call(|| a.gcd(&b)).map(f), ub(&C_GCD); i);
+    check!(c, call(|| copt(b.inv_mod2k(black_box(200)))).map(|v| v.map(f)), Some(ub(&C_INV2K)); i);
+    check!(c, call(|| copt(a.inv_odd_mod(&m))).map(|v| v.map(f)), Some(ub(&C_INV)); i);
+    check!(c, call(|| b.add_mod(&b, m.as_ref())).map(f), ub(&C_ADDMOD); i);
+    check!(c, call(|| a.mul_mod_special(&b, Limb(black_box(189)))).map(f), ub(&C_MULSPECIAL); i);
+    check!(c, call(|| b.bits()), C_BITS; i);
+    // const-evaluated Montgomery constants vs the runtime constructors
+    let rt = call(|| MontyParams::new(m));
+    let rt_vt = call(|| MontyParams::new_vartime(m));
+    let ct = call(MontyParams::<{ U256::LIMBS }>::from_const_params::<P256Mod>);
+    let _ = holds!(c, rt.is_ok() && rt == ct, "MontyParams::new == from_const_params"; i);
+    let _ = holds!(c, rt_vt.is_ok() && rt_vt == ct, "MontyParams::new_vartime == from_const_params"; i);
+    check!(c, call(|| ub(MontyForm::one(rt.clone().unwrap()).as_montgomery())), ub(&<P256Mod as ConstMontyParams<{ U256::LIMBS }>>::ONE); i);
+    if let Ok(p) = rt {
+        let (ma, mb) = (MontyForm::new(&a, p), MontyForm::new(&b, p));
+        check!(c, call(|| ub(ma.as_montgomery())), ub(C_MONTY_A.as_montgomery()); i);
+        check!(c, call(|| ub(&(ma * mb).retrieve())), ub(&C_MONTY_MUL); i);
+        check!(c, call(|| ub(&ma.pow(&b).retrieve())), ub(&C_MONTY_POW); i);
+        check!(c, call(|| ub(&CF::new(&a).mul(&CF::new(&b)).retrieve())), ub(&C_MONTY_MUL); i);
+    }
+}
 
 pub fn cases() -> Vec<Case> {
-    Vec::new()
+    let mut v = Vec::new();
+    case!(v, "U64 vs BoxedUint(64): add/sub/mul/div_rem/shl/shr/sqrt/gcd/inv_mod/add_mod/sub_mod/mul_mod (+traits, inverter)", fixed_vs_boxed_64);
+    case!(v, "U128 vs BoxedUint(128): add/sub/mul/div_rem/shl/shr/sqrt/gcd/inv_mod/add_mod/sub_mod/mul_mod (+traits, inverter)", fixed_vs_boxed_128);
+    case!(v, "U256 vs BoxedUint(256): add/sub/mul/div_rem/shl/shr/sqrt/gcd/inv_mod/add_mod/sub_mod/mul_mod (+traits, inverter)", fixed_vs_boxed_256);
+    case!(v, "U1024 vs BoxedUint(1024): add/sub/mul/div_rem/shl/shr/sqrt/gcd/inv_mod/add_mod/sub_mod/mul_mod (+traits, inverter)", fixed_vs_boxed_1024);
+    ucases!(v, "ct vs vartime: div_rem/rem/wrapping_div/sqrt/shl/shr/inv_mod2k/bits/zeros/bit", ct_vs_vartime; 1, 2, 3, 4, 16);
+    case!(v, "BoxedUint ct vs vartime: div_rem/rem/wrapping_div/sqrt/shl/shr/inv_mod2k/bits/zeros/bit", boxed_ct_vs_vartime);
+    ucases!(v, "trait/operator/Wrapping/Checked vs inherent: add/sub/mul/sqrt/shl/shr/bits", forms; 1, 2, 4, 16);
+    ucases!(v, "Reciprocal vs one-shot, trait vs inherent, fixed vs boxed: div_rem_limb/rem_limb", reciprocal; 1, 2, 4, 16);
+    case!(v, "const-evaluated vs run time (U256 arithmetic, Montgomery constants)", const_vs_runtime);
+    v
 }
